@@ -219,7 +219,7 @@ func main() {
 	r := ev.Start("C04")
 	defer r.RecoverMain()
 	defer world.Cleanup()
-	r.SetBudget(ev.Pick(r, 90*time.Second, 25*time.Minute))
+	r.SetBudget(ev.Pick(r, 240*time.Second, 25*time.Minute))
 	r.Assume("part (a): sweeper disabled, as in C01; shadow mode steady state", "part (c): the clock seam fixes 'now' of the load; the sweep is represented by its cutoff t_sweep - retention")
 
 	// ---------- (a) ----------
